@@ -301,7 +301,7 @@ def handleCtor (j : Json) : Except String Verdict := do
   let decl : Option (List Int) := match how with
     | "fromFiber" | "empty" => declIn
     | _ => match declIn with | some s => some s | none => dims
-  let model := if how == "empty" || how == "makePopulated" then mEmpty ids (decl.map intsToSx) dflt
+  let model := if how == "empty" || how == "makePopulated" || how == "makePopulated-nodefault" then mEmpty ids (decl.map intsToSx) dflt
                else mFromFiber ids (decl.map intsToSx) dflt
   let rep : List Int := match decl with | some s => s | none => estShape d tree
   let lv := dropTrailingEmpty (ctorLevels d tree rep)
